@@ -103,3 +103,27 @@ func TestVerifReplayIterateAllPDStops(t *testing.T) {
 		t.Errorf("C12.scan iter-stop violated ((*DelegRewardStore).IterateAllPD): one key with an unparsable address ended the scan; visited %d records, want 1", visited)
 	}
 }
+
+// C12.scan/(*DelegRewardStore).IteratePD/iter-stop: the maturity scan of one height. A key of that height whose address
+// segment does not parse (it sorts before every well-formed "0lt..." address) ends the scan: the pending withdrawal
+// of d at the same height is never visited, i.e. never paid by the BeginBlock hook.
+func TestVerifReplayIteratePDStops(t *testing.T) {
+	state := vrIterState()
+	rs := NewDelegRewardStore("rew", state)
+	d := vrIterAddr(t)
+	if err := rs.SetPendingRewards(d, balance.NewAmount(50), 5); err != nil {
+		t.Fatal(err)
+	}
+	if err := rs.set(storage.StoreKey("rew_pending_5_0lt!"), balance.NewAmount(1)); err != nil {
+		t.Fatal(err)
+	}
+	state.Commit()
+	visited := 0
+	rs.IteratePD(5, func(a keys.Address, amt *balance.Amount) bool {
+		visited++
+		return false
+	})
+	if visited != 1 {
+		t.Errorf("C12.scan iter-stop violated ((*DelegRewardStore).IteratePD): one key with an unparsable address ended the scan of height 5; visited %d records, want 1", visited)
+	}
+}
